@@ -47,6 +47,8 @@ func checkC20(p *Prog, r *Report) {
 	r.Check("R2", "summary:model.UseCaseInformationDataType.Add", found, "", "recognised as writing elements of its receiver's UseCaseSupport list (callers must hand it a private list)")
 
 	sliceEqualityLint(p, r, "R6")
+	// the registry a peer reads is the stored function data: copies of it are taken under the store lock (mechanism: function-data store)
+	r.ImportRules(p, "C11", checkC11, map[string]string{"O2": "R10"})
 	sharedGlobalCells(p, r, "R9")
 	writeBackIndexRule(p, r, "R7")
 	r.Rule("R8", "remove-all rebuilds the use-case information list keeping exactly the entries whose address differs from the entity's (retain truth table): every actor's entry of the entity goes, not just the first")
